@@ -324,6 +324,38 @@ fn key_variants(base: usize, variant: usize) -> Node {
     }
 }
 
+/// one random case from its parts: entries (key identity, key presentation, value), layout bits,
+/// target, placement of the mapping
+fn make_case(es: Vec<(usize, usize, Node)>, lb: u32, target: Target, place: usize) -> Case {
+    let mut entries: Vec<(Node, Node)> = vec![];
+    let struct_keys = ["a", "b", "c", "k", "x", "y"];
+    for (base, var, v) in es {
+        let k = if target == Target::Struct { s(struct_keys[base % 3]) } else { key_variants(base, var) };
+        entries.push((k, v));
+    }
+    let m = Node::map(false, entries);
+    // definitions used by alias keys / alias values
+    let defs = Node::seq(true, vec![s("kx").anchored("kk"), Node::map(true, vec![(s("m"), s("1")), (s("n"), Node::seq(true, vec![s("2")]))]).anchored("v")]);
+    let doc = if target == Target::Struct {
+        // no aliases needed for the struct target (values may still alias `v`: strip them)
+        let mut m2 = m.clone();
+        m2.visit_mut(&mut |n| {
+            if matches!(n.kind, Kind::Alias(_)) {
+                n.kind = Kind::Scalar { value: "al".into(), style: Style::Plain };
+            }
+        });
+        m2
+    } else {
+        match place {
+            0 => Node::seq(false, vec![defs, m]),
+            1 => Node::seq(false, vec![defs, Node::map(false, vec![(s("outer"), m), (s("after"), s("x"))])]),
+            2 => Node::seq(false, vec![defs, Node::seq(false, vec![m, s("tail")])]),
+            _ => Node::seq(false, vec![defs, Node::map(false, vec![(s("o"), Node::seq(false, vec![m]))])]),
+        }
+    };
+    Case { doc, layout: Layout::from_bits(lb), target }
+}
+
 struct C04;
 
 fn nontrivial(c: &Case) -> bool {
@@ -377,6 +409,31 @@ impl Property for C04 {
             }
         }
         out
+    }
+    /// libFuzzer input: layout bits, target, placement, then 1-6 entries (key identity, key
+    /// presentation, value tree)
+    fn fuzz_decode(data: &[u8]) -> Option<(&'static str, Case, bool)> {
+        let mut b = engine::Bytes::new(data);
+        let lb = b.u16() as u32;
+        let target = b.pick(&[Target::Untyped, Target::ShapeStr, Target::Struct]);
+        let place = b.below(4);
+        let n = 1 + b.below(6);
+        let es: Vec<(usize, usize, Node)> = (0..n)
+            .map(|_| {
+                let base = b.below(6);
+                let var = b.below(3);
+                let v = match b.below(9) {
+                    0..=3 => gdoc::scalar_from_bytes(&mut b),
+                    4..=6 => gdoc::tree_from_bytes(&mut b, 3),
+                    7 => Node::seq(false, vec![Node::map(false, vec![(s("p"), Node::seq(true, vec![s("1"), Node::map(true, vec![(s("q"), s("r"))])]))]), s("t")]),
+                    _ => Node::alias("v"),
+                };
+                (base, var, v)
+            })
+            .collect();
+        let c = make_case(es, lb, target, place);
+        let nt = nontrivial(&c);
+        Some(("fuzz-random", c, nt))
     }
     fn generate(ctx: &mut Ctx<Self>) {
         // ---------------- exhaustive: <= 4 entries, 2 key identities x 3 kinds, 3 value shapes
@@ -438,35 +495,7 @@ impl Property for C04 {
             prop::sample::select(vec![Target::Untyped, Target::ShapeStr, Target::Struct]),
             0usize..4,
         )
-            .prop_map(|(es, _x, lb, target, place)| {
-                let mut entries: Vec<(Node, Node)> = vec![];
-                let struct_keys = ["a", "b", "c", "k", "x", "y"];
-                for (base, var, v) in es {
-                    let k = if target == Target::Struct { s(struct_keys[base % 3]) } else { key_variants(base, var) };
-                    entries.push((k, v));
-                }
-                let m = Node::map(false, entries);
-                // definitions used by alias keys / alias values
-                let defs = Node::seq(true, vec![s("kx").anchored("kk"), Node::map(true, vec![(s("m"), s("1")), (s("n"), Node::seq(true, vec![s("2")]))]).anchored("v")]);
-                let doc = if target == Target::Struct {
-                    // no aliases needed for the struct target (values may still alias `v`: strip them)
-                    let mut m2 = m.clone();
-                    m2.visit_mut(&mut |n| {
-                        if matches!(n.kind, Kind::Alias(_)) {
-                            n.kind = Kind::Scalar { value: "al".into(), style: Style::Plain };
-                        }
-                    });
-                    m2
-                } else {
-                    match place {
-                        0 => Node::seq(false, vec![defs, m]),
-                        1 => Node::seq(false, vec![defs, Node::map(false, vec![(s("outer"), m), (s("after"), s("x"))])]),
-                        2 => Node::seq(false, vec![defs, Node::seq(false, vec![m, s("tail")])]),
-                        _ => Node::seq(false, vec![defs, Node::map(false, vec![(s("o"), Node::seq(false, vec![m]))])]),
-                    }
-                };
-                Case { doc, layout: Layout::from_bits(lb), target }
-            });
+            .prop_map(|(es, _x, lb, target, place)| make_case(es, lb, target, place));
         ctx.run_strategy("random", 1, ctx.tier.pick(40_000, 500_000), &strat, nontrivial);
     }
 }
